@@ -36,8 +36,9 @@ type Directives struct {
 	AA, AD            bool   // aa / ad: the reply has the AA / AD flag set (an authoritative / validating upstream)
 	Fat               bool   // fat (with uexact<N>): the padding goes into the first answer record itself - one TXT record with up to 64 KiB
 	// of text - instead of hundreds of small records, so that name compression saves next to nothing
-	Fin  bool // fin: stream transports close the connection right after the reply has been written
-	Deep int  // deep<N>: a CNAME chain of nested names followed by N A records owned by a long label under the
+	Fin    bool // fin: stream transports close the connection right after the reply has been written
+	Stream bool // stream: DoH servers flush the response header before the body (no Content-Length) and write the body in two pieces
+	Deep   int  // deep<N>: a CNAME chain of nested names followed by N A records owned by a long label under the
 	// deepest name: compresses to ~16 bytes per record with full name compression, but to ~80 bytes per
 	// record for an encoder that bounds the depth of compression pointer chains
 }
@@ -71,6 +72,9 @@ func ParseDirectives(firstLabel string) Directives {
 			continue
 		case "fin":
 			d.Fin = true
+			continue
+		case "stream":
+			d.Stream = true
 			continue
 		case "aa":
 			d.AA = true
